@@ -18,10 +18,19 @@
    (canonical), and [related t]: a NoVersions(p) cause whose sibling collapses to a dependency leaf p1 -> p2 is
    about p1 or p2 (true of resolution steps, whose pivot occurs in both causes; merge_no_versions does not
    check it and would widen the wrong set otherwise).
+   Bridge to the solver (Proofs/SolverCollapse.v, section C09_solver below): every tree built by the solver
+   model from a justified store - in particular the NoSolution tree of every run of [resolve] on a lawful
+   VersionSet, well-formed registry and well-behaved trace - has well-formed leaf sets, NoVersions leaves true
+   on [existing reg], every derived node entailed by its causes on EVERY admissible set, and is [related].
+   Hence, when it holds no (NoVersions, NotRoot) pair, collapse_no_versions succeeds on it and the collapsed
+   tree is a valid explanation on existing versions whose top node still forbids the root.
    NOT proved here (decided by the correspondence + oracle of domain "collapse"): that trees built by resolve
-   contain no (NoVersions, NotRoot) pair and satisfy [related]. *)
-From Coq Require Import List NArith Bool.
-From PG Require Import Model.VS Model.Term Model.Solver Model.Registry Model.Report Proofs.VSLaws Proofs.ReportProofs.
+   contain no (NoVersions, NotRoot) pair.  It is reduced to a property of the store alone
+   ([no_notroot_cause]: no derived entry has a NotRoot entry among its causes). *)
+From Coq Require Import List NArith ZArith Bool.
+From PG Require Import Model.VS Model.Term Model.Solver Model.Registry Model.Report Proofs.VSLaws Proofs.SolverSem
+  Proofs.SolverStore Proofs.SolverTree Proofs.ReportProofs Proofs.SolverCollapse.
+From PG Require Import Model.Instances Proofs.SolverExamples.
 Import ListNotations.
 
 Section C09.
@@ -83,18 +92,102 @@ Section C09.
   Qed.
 End C09.
 
-(* "only versions that actually exist": the assignments selecting registry versions; a NoVersions leaf whose set
-   contains no registry version is true on them *)
+(* "only versions that actually exist": the assignments selecting registry versions
+   ([existing reg a := forall p v, a p = Some v -> In v (reg_versions reg p)], defined in Proofs/SolverCollapse.v);
+   a NoVersions leaf whose set contains no registry version is true on them *)
 Section C09_registry.
   Context {VS Vr : Type} (O : VSOps VS Vr).
   Variable reg : @registry VS Vr.
-  Definition existing : @assignment Vr -> Prop :=
-    fun a => forall p v, a p = Some v -> In v (reg_versions reg p).
+
+  Theorem existing_unfold :
+    forall a : @assignment Vr, existing reg a <-> forall p v, a p = Some v -> In v (reg_versions reg p).
+  Proof. intros a. reflexivity. Qed.
 
   Theorem no_versions_leaf_true_on_existing :
-    forall p s, (forall v, In v (reg_versions reg p) -> vs_contains O s v = false) -> absent O existing p s.
+    forall p s, (forall v, In v (reg_versions reg p) -> vs_contains O s v = false) -> absent O (existing reg) p s.
   Proof. intros p s H a Ha v E. exact (H v (Ha p v E)). Qed.
 End C09_registry.
+
+(* the trees of the solver model meet the hypotheses of the semantic clause *)
+Section C09_solver.
+  Context {VS Vr : Type} (O : VSOps VS Vr) (L : VSLawful O) (veqb : Vr -> Vr -> bool).
+  Context (reg : registry (VS := VS) (Vr := Vr)) (r : pkg) (rv : Vr).
+
+  (* the two readings of a node's terms (Report.v / SolverTree.v) agree *)
+  Theorem node_terms_is_tree_terms : forall t : @tree VS Vr, node_terms O t = tree_terms O t.
+  Proof. exact (node_terms_tree_terms O). Qed.
+
+  Theorem store_tree_meets_collapse_hypotheses :
+    forall s sh f id t,
+      store_just O L reg r rv s -> tree_of f s sh id = Some t ->
+      tree_wf O L t /\ nv_true O (existing reg) t /\ related O t /\ (forall adm, locally_entailed O adm t).
+  Proof. exact (tree_of_collapse_hyps O L reg r rv). Qed.
+
+  Theorem nosolution_tree_meets_collapse_hypotheses :
+    reg_wf O L reg -> (forall a b, veqb a b = true -> a = b) ->
+    forall fuel tr t st log k,
+      WellBehaved O reg tr -> resolve O veqb fuel r rv tr = (ONoSolution t, st, log, k) ->
+      tree_wf O L t /\ nv_true O (existing reg) t /\ related O t /\ (forall adm, locally_entailed O adm t).
+  Proof. exact (nosolution_tree_collapse_hyps O L veqb reg r rv). Qed.
+
+  Theorem nosolution_tree_collapse :
+    reg_wf O L reg -> (forall a b, veqb a b = true -> a = b) ->
+    forall fuel tr t st log k,
+      WellBehaved O reg tr -> resolve O veqb fuel r rv tr = (ONoSolution t, st, log, k) ->
+      nv_notroot_pair t = false ->
+      exists t',
+        collapse_no_versions O t = CTree t'
+        /\ locally_entailed O (existing reg) t'
+        /\ nv_true O (existing reg) t' /\ tree_wf O L t' /\ nv_survivors_ok t' /\ nv_notroot_pair t' = false
+        /\ (forall e', In e' (leaves t') ->
+              exists e, In e (leaves t)
+                /\ forall a, existing reg a -> (violates O a (ext_terms O e) <-> violates O a (ext_terms O e')))
+        /\ (forall a, existing reg a -> a r = Some rv -> violates O a (node_terms O t')).
+  Proof. exact (nosolution_tree_collapses O L veqb reg r rv). Qed.
+
+  (* the remaining hypothesis, reduced to the store *)
+  Theorem nosolution_tree_no_pair_from_store :
+    reg_wf O L reg -> (forall a b, veqb a b = true -> a = b) ->
+    forall fuel tr t st log k,
+      WellBehaved O reg tr -> resolve O veqb fuel r rv tr = (ONoSolution t, st, log, k) ->
+      no_notroot_cause (store st) -> nv_notroot_pair t = false.
+  Proof. exact (nosolution_tree_no_pair O L veqb reg r rv). Qed.
+End C09_solver.
+
+(* non-vacuity: the NoSolution tree of recorded run 1 over Range<Z> (a derived node over a dependency leaf and a
+   NoVersions leaf) has no (NoVersions, NotRoot) pair and collapses to a single dependency leaf *)
+Example c09_solver_example :
+  exists t st log p1 r1 p2 r2,
+    resolve zvs Z.eqb 100 0%N 2%Z tr1 = (ONoSolution t, st, log, 8)
+    /\ has_nv t = true /\ nv_notroot_pair t = false /\ no_notroot_cause (store st)
+    /\ collapse_no_versions zvs t = CTree (TExternal (XFromDep p1 r1 p2 r2))
+    /\ locally_entailed zvs (existing reg1) (TExternal (XFromDep p1 r1 p2 r2))
+    /\ (forall a, existing reg1 a -> a 0%N = Some 2%Z ->
+          violates zvs a (node_terms zvs (TExternal (XFromDep p1 r1 p2 r2)))).
+Proof.
+  assert (E : exists t st log p1 r1 p2 r2,
+             resolve zvs Z.eqb 100 0%N 2%Z tr1 = (ONoSolution t, st, log, 8)
+             /\ has_nv t = true /\ nv_notroot_pair t = false
+             /\ collapse_no_versions zvs t = CTree (TExternal (XFromDep p1 r1 p2 r2))
+             /\ forallb (fun i => match ikind i with
+                                  | KDerived a b =>
+                                      negb (match option_map (@ikind _ _) (nth_error (store st) a) with
+                                            | Some (KNotRoot _ _) => true | _ => false end
+                                            || match option_map (@ikind _ _) (nth_error (store st) b) with
+                                               | Some (KNotRoot _ _) => true | _ => false end)
+                                  | _ => true end) (store st) = true)
+    by (vm_compute; do 7 eexists; repeat split).
+  destruct E as (t & st & log & p1 & r1 & p2 & r2 & E & Hnv & Hp & Hc & Hst).
+  exists t, st, log, p1, r1, p2, r2.
+  destruct (nosolution_tree_collapse zvs zlaw Z.eqb reg1 0%N 2%Z reg1_wf zeqb_eq 100 tr1 t st log 8 tr1_wb E Hp)
+    as (t' & C & A1 & _ & _ & _ & _ & _ & A2).
+  rewrite Hc in C. injection C as <-.
+  repeat split; try assumption.
+  intros id i a b Hn Hk x ix p v Hx Hnx Hkx.
+  rewrite forallb_forall in Hst. specialize (Hst i (nth_error_In _ _ Hn)). rewrite Hk in Hst.
+  destruct Hx as [-> | ->]; rewrite Hnx in Hst; cbn in Hst; rewrite Hkx in Hst; cbn in Hst;
+    [discriminate|now rewrite orb_true_r in Hst].
+Qed.
 
 (* non-vacuity: a NoVersions leaf merged into the dependency leaf next to it; an unmergeable pair kept *)
 Example c09_example :
@@ -119,3 +212,9 @@ Print Assumptions collapse_preserves_validity_on_existing.
 Print Assumptions collapse_leaves_preserved.
 Print Assumptions collapse_top_still_forbids_root.
 Print Assumptions no_versions_leaf_true_on_existing.
+Print Assumptions node_terms_is_tree_terms.
+Print Assumptions store_tree_meets_collapse_hypotheses.
+Print Assumptions nosolution_tree_meets_collapse_hypotheses.
+Print Assumptions nosolution_tree_collapse.
+Print Assumptions nosolution_tree_no_pair_from_store.
+Print Assumptions c09_solver_example.
